@@ -272,7 +272,9 @@ func RunBashStepLimited(dir string, script string, limit int, o RunOpts) RunResu
 	} else {
 		body = pre + script
 	}
-	o.Timeout = 40 * time.Second
+	if o.Timeout < 40*time.Second {
+		o.Timeout = 40 * time.Second
+	}
 	return RunBash(dir, body, o)
 }
 
